@@ -357,7 +357,7 @@ def options_strategy(cls: dict, max_len: int = 16384, rich_keys: bool = False):
         d["key_store"] = st.one_of(st.none(), st.binary(min_size=4, max_size=4))
     if has(cls, "MixinHmac", "MixinHmacMandatory"):
         d["user_key"] = _KEY32
-        d["key_as"] = st.sampled_from(["hex", "0xhex", "txt", "bin"])
+        d["key_as"] = st.sampled_from(["hex", "0xhex", "txt", "bin", "txt_nl", "txt_upper"])
     if has(cls, "MixinCtrInitVector"):
         d["iv"] = st.one_of(st.none(), st.binary(min_size=16, max_size=16))
     if has(cls, "MixinRelocTable"):
@@ -638,8 +638,9 @@ def materialise(case: dict, root: str) -> Built:
             cfg["outputImageEncryptionKeyFile"] = b.user_key.hex()
         elif how == "0xhex":
             cfg["outputImageEncryptionKeyFile"] = "0x" + b.user_key.hex()
-        elif how == "txt":
-            _write(os.path.join(d, "userkey.txt"), b.user_key.hex())
+        elif how in ("txt", "txt_nl", "txt_upper"):
+            # a text file as an editor or `echo` leaves it: with a line end, or in upper-case digits
+            _write(os.path.join(d, "userkey.txt"), b.user_key.hex() + "\n" if how == "txt_nl" else b.user_key.hex().upper() if how == "txt_upper" else b.user_key.hex())
             cfg["outputImageEncryptionKeyFile"] = "userkey.txt"
         else:
             _write(os.path.join(d, "userkey.bin"), b.user_key)
